@@ -285,6 +285,9 @@ prop("C20", ["prims.go", "c20.go"],
       run("nextid", "harnessC20nextid", ["ids-distinct"], dpor=True, quick={"max_reversals": 2, "race": True, "bound": "two goroutines each taking two IDs from both broker kinds, counter value symbolic (wrap-around included)"}),
       run("client-methods", "harnessC19concurrent", ["two-starts", "two-clients", "done"], dpor=True, files=WORLD,
           quick={"max_reversals": 1, "race": True, "bound": "host x plugin composed (net/rpc and gRPC): two goroutines on one Client, each performing one of {Start, Client, Protocol+Exited+ID+ReattachConfig, Kill}; all schedules with <= 1 reversal; happens-before race detection over everything go-plugin touches on both sides"}),
+      run("serve-shutdown", "harnessC20serveShutdown", ["host-side", "plugin-side", "after-shutdown", "shut-down"], dpor=True, files=WORLD,
+          quick={"max_reversals": 1, "race": True, "bound": "host x plugin composed over gRPC, multiplexing on and off: a brokered server being started (AcceptAndServe on the host broker, or on the plugin broker inside the plugin) while the client is killed, and on the host another AcceptAndServe after the shutdown returned; all schedules with <= 1 reversal, happens-before race detection"},
+          thorough={"max_reversals": 2, "race": True, "max_wall_s": 1500, "bound": "as quick with <= 2 reversals (50 535 schedules, 91 s when measured)"}),
       run("accept-close", "harnessC20brokerClose", ["host-side", "plugin-side", "both-returned"], dpor=True, files=["prims.go", "c07.go"],
           quick={"max_reversals": 3, "race": True, "bound": "a GRPCBroker.Accept (sending through the real stream pump) racing with Close of the same broker, host side and plugin side, all schedules with <= 3 reversals"},
           thorough={"max_reversals": 4, "race": True, "max_wall_s": 1500, "bound": "as quick with <= 4 reversals"})],
